@@ -6,6 +6,7 @@ modes
   pyint   {"ints":["123",…]}                      -> [str(hash(int)), …]                (CPython itself)
   sigs    {"decls":[{"kind":…,…},…]}              -> [signature | "err:<Exc>", …]
   ops     {"root": dir, "ops":[…]}                -> one observation per "state" op     (fresh process = empty memo)
+          ops: write / utime / remove of file f; symlink (link l -> file f); state of file f spelled sp, or through link l
   collect {"root": dir, "base": dir, "decls":[…]} -> [{"path": collected path | None, "sig": …}|{"err":…}, …]
   pystate {"values":[jv,…]}                       -> [PythonNode(value=v, hash=True).state(), …]
   build   {"root": dir}                           -> {"exit": int, "outcomes": {task name: outcome name}}
@@ -111,6 +112,17 @@ def mode_ops(req):
     def fname(i):
         return f"f{i}.bin"
 
+    def lname(k):
+        return f"l{k}.lnk"
+
+    def spelled_link(k, sp):
+        # the file is named through a symbolic link: absolute / relative / dotted spelling of the link itself
+        if sp % 3 == 0:
+            return root / lname(k)
+        if sp % 3 == 1:
+            return Path(lname(k))
+        return root / "sub" / ".." / lname(k)
+
     def spelled(i, sp):
         if sp == 0:
             return root / fname(i)
@@ -132,8 +144,15 @@ def mode_ops(req):
             os.utime(root / fname(op["f"]), ns=(op["mtime_ns"], op["mtime_ns"]))
         elif o == "remove":
             (root / fname(op["f"])).unlink(missing_ok=True)
+        elif o == "symlink":          # (re)point link k to file f; "rel": relative target. The target need not exist.
+            lp = root / lname(op["l"])
+            if lp.is_symlink() or lp.exists():
+                lp.unlink()
+            lp.symlink_to(fname(op["f"]) if op.get("rel") else root / fname(op["f"]))
+            if op.get("lmtime_ns") is not None:   # the link's own (lstat) time, independent of the target's
+                os.utime(lp, ns=(op["lmtime_ns"], op["lmtime_ns"]), follow_symlinks=False)
         elif o == "state":
-            p = spelled(op["f"], op["sp"])
+            p = spelled_link(op["l"], op["sp"]) if op.get("l") is not None else spelled(op["f"], op["sp"])
             if op["kind"] == "path":
                 node = PathNode(name="n", path=p)
             elif op["kind"] == "pickle":
